@@ -40,6 +40,11 @@ def build(tier, ctx):
     defs += [("FD", d) for d in fragment.kill_in_loop_family()]
     defs += [("FK", d) for d in fragment.loop_on_break_path_family(
         5 if tier == "quick" else 6)]
+    # decision nodes with a silent break next to evented breaks
+    defs += [("FE", d) for d in fragment.silent_break_family()]
+    # long sequences between loop start, loop end and exits
+    defs += [("FX", d) for d in fragment.stretched_family(
+        4 if tier == "quick" else 5, 10) if fragment.has_loop(d)]
     tasks = []
     for i in range(0, len(defs), CHUNK):
         tasks.append({"defs": [(nm, dsl.to_list(d))
